@@ -42,6 +42,11 @@ func init() {
 		{"oid.CTPoison", oidVar(x, "OIDExtensionCTPoison", "oidCTPoison")},
 		{"oid.CTSCT", oidVar(x, "OIDExtensionCTSCT", "oidCTSCT")},
 		{"oid.AuthorityKeyId", oidVar(x, "OIDExtensionAuthorityKeyId", "oidAuthorityKeyId")},
+		// the CT extended key usage: its OID, the rows of the EKU table that mention it, and the two loops that look for it
+		{"oid.ExtKeyUsageCT", oidVar(x, "oidExtKeyUsageCertificateTransparency", "oidExtKeyUsageCT")},
+		{"eku.table", tableRows(x, "extKeyUsageOIDs", "CertificateTransparency", "ekuTableCTRows")},
+		{"eku.IsPreIssuer", rangeLoopSrc(se, "IsPreIssuer", "issuer.ExtKeyUsage", "isPreIssuerLoop")},
+		{"eku.BuildPrecertTBS", rangeLoopSrc(x, "BuildPrecertTBS", "preIssuer.ExtKeyUsage", "buildPrecertEkuLoop")},
 		{"tags.tbsCertificate", structTags(x, "tbsCertificate", "asn1", "tbsCertificateFields")},
 		{"tags.validity", structTags(x, "validity", "asn1", "validityFields")},
 		{"tags.publicKeyInfo", structTags(x, "publicKeyInfo", "asn1", "publicKeyInfoFields")},
@@ -522,5 +527,38 @@ func returnsOf(rel, fn, leanName string, kernels ...string) func() string {
 		})
 		return fmt.Sprintf("/-- generated from %s func %s: every return statement with its guards -/\ndef %s : List String :=\n  [%s]\n",
 			rel, fn, leanName, strings.Join(rows, ",\n   "))
+	}
+}
+
+// tableRows: the rows (element source) of the composite literal initialising variable name that mention marker.
+func tableRows(rel, name, marker, leanName string) func() string {
+	return func() string {
+		f := parseFile(rp(rel))
+		for _, d := range f.Decls {
+			gd, ok := d.(*ast.GenDecl)
+			if !ok || gd.Tok != token.VAR {
+				continue
+			}
+			for _, sp := range gd.Specs {
+				vs := sp.(*ast.ValueSpec)
+				for i, n := range vs.Names {
+					if n.Name != name || i >= len(vs.Values) {
+						continue
+					}
+					cl, ok := vs.Values[i].(*ast.CompositeLit)
+					if !ok {
+						panic(bail{fmt.Sprintf("%s: %s is not a composite literal", rel, name)})
+					}
+					var rows []string
+					for _, e := range cl.Elts {
+						if strings.Contains(src(e), marker) {
+							rows = append(rows, leanStr(src(e)))
+						}
+					}
+					return fmt.Sprintf("/-- generated from %s: rows of `%s` that mention %s -/\ndef %s : List String := [%s]\n", rel, name, marker, leanName, strings.Join(rows, ", "))
+				}
+			}
+		}
+		panic(bail{fmt.Sprintf("%s: variable %s not found", rel, name)})
 	}
 }
